@@ -26,6 +26,34 @@ sys.path.insert(0, os.path.dirname(os.path.abspath(__file__)))
 from rqv import runner  # noqa: E402
 
 
+def do_replay(pid, path):
+    """exit 1 if the recorded counterexample still violates the property on /repo's current tree, 0 if it no longer does."""
+    import shutil
+    import subprocess
+    from rqv import replay, native, overlay as ov
+    work = "/var/tmp/rqverif.replay.%d" % os.getpid()
+    shutil.rmtree(work, ignore_errors=True)
+    os.makedirs(work)
+    try:
+        snap = os.path.join(work, "harness")
+        shutil.copytree(ov.HARNESS_SRC, snap)
+        ov.HARNESS = snap
+        if path.endswith(".rs"):
+            ok, why, _ = replay.run_replay_file(pid, path, work, print)
+            print("replay %s: %s" % (path, "VIOLATION reproduced: " + why if ok else "not reproduced (%s)" % why))
+            return 1 if ok else 0
+        binary = native.build_binary(work)
+        if path.endswith(".sh"):
+            p = subprocess.run(["bash", path, binary], capture_output=True, text=True)
+        else:
+            p = subprocess.run([sys.executable, os.path.join(ov.VERIF, "scenarios", "run.py"), pid, binary], capture_output=True, text=True)
+        print((p.stdout + p.stderr).strip()[-1500:])
+        print("replay %s: %s" % (path, "VIOLATION reproduced" if p.returncode else "property holds on this input"))
+        return 1 if p.returncode else 0
+    finally:
+        shutil.rmtree(work, ignore_errors=True)
+
+
 def main():
     ap = argparse.ArgumentParser()
     ap.add_argument("prop")
@@ -34,7 +62,10 @@ def main():
     ap.add_argument("--jobs", type=int, default=int(os.environ.get("VERIF_JOBS", "0")))
     ap.add_argument("--keep", action="store_true", help="keep the scratch overlay")
     ap.add_argument("--no-evidence", action="store_true")
+    ap.add_argument("--replay", default=None, help="re-run a recorded counterexample (replays/<id>/*.rs|*.sh|*.txt, findings/*) against /repo's current tree")
     a = ap.parse_args()
+    if a.replay:
+        return do_replay(a.prop.upper(), a.replay)
     seed = int(os.environ.get("VERIF_SEED", "0") or 0)
     pid = a.prop.upper()
     try:
